@@ -57,6 +57,10 @@ def explore(ck: Check, n_tables: int, xlsx_every: int) -> None:
                 t = ragged(rng, t)
                 kind = "ragged"
             fmt = "xlsx" if (xlsx_every and i % xlsx_every == 0 and kind == "full") else "csv"
+            if i % 7 == 5 and len(t[0]) > 1 and fmt == "csv":
+                # one heading cell is the empty text: still a distinct name (CSV only: a spreadsheet cannot tell '' from an absent cell)
+                t[0][rng.randrange(len(t[0]))] = ""
+                ck.histogram["heading/empty-text"] += 1
             inp = {"table": t, "format": fmt}
             path = tdp / f"t{i}.{fmt}"
             (write_xlsx(path, {"S": t}) if fmt == "xlsx" else write_csv(path, t))
